@@ -61,3 +61,9 @@ Lemma filing_matches_source :
   provider_source = provider_reading /\
   session_provider_source = session_provider_reading.
 Proof. repeat split; vm_compute; reflexivity. Qed.
+
+(* the order of negotiation, decision and sends inside the two negotiation handlers *)
+Lemma handlers_match_source :
+  request_handler_source = request_handler_reading /\
+  response_handler_source = response_handler_reading.
+Proof. split; vm_compute; reflexivity. Qed.
